@@ -595,7 +595,7 @@ def stats_init():
     return {"simulations": 0, "steps": 0, "switches": 0, "switches_inside_parse": 0, "cache_hits": 0, "leftrec_rounds": 0,
             "hook_events": 0, "rule_events": 0, "jobs": 0, "jobs_ok": 0, "jobs_err": 0, "overlap_same_variant": 0,
             "overlap_same_input": 0, "same_variant_follows_on_thread": 0, "same_input_again_on_thread": 0,
-            "fresh_thread_sims": 0, "deep_nesting_sims": 0, "aged_process_sims": 0, "many_parses_sims": 0, "buffer_reuse_sims": 0, "sims_mixing_grammars": 0, "unbalanced_trace_callbacks": 0, "failing_jobs_on_memoized_variants": 0}
+            "fresh_thread_sims": 0, "deep_nesting_sims": 0, "aged_process_sims": 0, "many_parses_sims": 0, "buffer_reuse_sims": 0, "volume_probe_sims": 0, "jobs_with_turned_settings": 0, "sims_with_environment_variables": 0, "sims_mixing_grammars": 0, "unbalanced_trace_callbacks": 0, "failing_jobs_on_memoized_variants": 0}
 
 
 def run_check(prop, tier, seed, replay_path=None):
@@ -665,6 +665,9 @@ def run_check(prop, tier, seed, replay_path=None):
             stats["aged_process_sims"] += 1 if plan.get("aged") else 0
             stats["many_parses_sims"] += 1 if plan.get("many_parses") else 0
             stats["buffer_reuse_sims"] += 1 if plan.get("reuse_buffer") else 0
+            stats["volume_probe_sims"] += 1 if plan.get("bulk") else 0
+            stats["jobs_with_turned_settings"] += sum(1 for q in plan["tasks"] for j in q if "@" in j.get("entry", ""))
+            stats["sims_with_environment_variables"] += 1 if plan.get("env") else 0
             if len({self_g for self_g in (ps.by_name[j["variant"]]["grammar"] for q in plan["tasks"] for j in q)}) > 1:
                 stats["sims_mixing_grammars"] += 1
             interleavings.add(out["switch_hash"])
@@ -845,6 +848,9 @@ def run_check(prop, tier, seed, replay_path=None):
         "faults_fired": {"forced_preemption_or_stall_policies": sum(policies.get(k, 0) for k in ("rtc", "stall", "targeted", "pct")),
                          "staggered_start_sims": None, "fresh_thread_per_job_sims": stats["fresh_thread_sims"]},
         "reach": stats,
+        # seams taken from the working tree: knobs of ParseSettings and run-time environment reads (both empty on the unchanged tree)
+        "parse_settings_knobs_found": ps.knobs,
+        "environment_reads_found": [n for n, _ in discovered_env_reads()],
         "isolated_oracle_processes": ps.oracle_spawns,
         "isolated_jobs_without_result": len(ps.no_result),
         "determinism_selftest": det,
